@@ -116,11 +116,42 @@ def who_may_write(ctx, rep, rule: str, only_kinds: set[str] | None = None, inclu
         if only_kinds is None or k in only_kinds:
             rep.floor(rule, f"{short(wq)} writes {k}", per_writer.get(k, 0), 1)
     if include_params:
+        from ..pointsto import PARAM as _PARAM
+
         for u in sorted(update_params):
+            # strict polarity: what update_params writes in place is parameter storage and nothing else — a destination that may
+            # also be a fresh tensor means a possibly-copying conversion (`.float()`, `.to()`, `.contiguous()`, `.reshape()`) sits
+            # between the parameter and the write, and for some dtype / layout the update lands in the copy
+            for w in pts.writes:
+                if w.func == u and _PARAM in w.dst:
+                    extra = sorted(str(t[1][0]) if isinstance(t[1], tuple) else str(t[1]) for t in set(w.dst) - {_PARAM})
+                    rep.ob(rule, f"writes-parameters-through-views-only:{short(u)}:{w.op.replace('torch.', '')}", not extra, w.where, f"in-place `{w.op}` in {short(u)} writes parameter storage" + (f", but its destination may also be a separate tensor created at {extra[:2]}: for some parameters the update is applied to a copy" if extra else " only"), sample=False)
             n_w = per_writer.get("PARAM:" + u, 0)
             rep.ob(rule, f"writes-parameters-in-place:{short(u)}", n_w >= 1, repo.func(u).loc(), f"{short(u)} performs {n_w} in-place write(s) whose destination aliases parameter storage; it must update the parameters in place through their block views (an out-of-place result is discarded)", sample=n_w == 0)
     rep.notes.setdefault("points_to", {"frames": len(pts.frames), "heap_cells": len(pts.heap), "write_sites": len(pts.writes), "iterations": pts.iterations, "k": pts.k, "unknown_ops": sorted(pts.unknown_ops)})
     rep.assume("torch operation table (sv/tables.py): in-place / view / maybe-copy / fresh classification of Tensor methods and torch functions")
+
+
+def gradients_are_inputs(ctx, rep, rule: str) -> None:
+    """The preconditioner lists and the matrix routines treat the gradient lists they are handed as read-only inputs: no
+    in-place write inside those modules may land in storage that may be a gradient (or the filtered gradient the driver
+    passes in its place).  `x = g.detach(); x.div_(...)` — a view where a copy was meant — rewrites the caller's gradient."""
+    repo = ctx.repo
+    pts = ctx.engine("pts")
+    kinds = pts.state_kinds()
+    mods = (PL_MOD, "matrix_functions")
+    n = 0
+    for w in pts.writes:
+        mod = w.func.split(":")[0]
+        if mod not in mods:
+            continue
+        n += 1
+        ks: set[str] = set()
+        for t in w.dst:
+            ks |= classify(pts, kinds, t)
+        bad = sorted(ks & {"GRAD", "filtered_grad", "momentum"})
+        rep.ob(rule, f"gradients-are-read-only-inputs:{short(w.func)}:{w.op.replace('torch.', '')}", not bad, w.where, f"in-place `{w.op}` in {short(w.func)} ({ast.unparse(w.node)[:80]})" + (f" may write storage of kind {bad}: the preconditioner works on a view of its input where a copy is required, so the caller's gradient / filtered gradient is overwritten" if bad else " does not reach the gradient lists"), sample=(n % 7 == 0))
+    rep.floor(rule, "in-place writes in the preconditioner-list and matrix modules", n, 8)
 
 
 def loop_var_leak(ctx, rep, rule: str, funcs: list[str]) -> None:
